@@ -33,9 +33,9 @@ _PREFIX = [None, "lib", "a/b", "lib/"]
 
 
 def _pre_url(B, p, kind, pf, iv):
-    # thorough: three characters on four of the sixteen (source kind, prefix) shards, two on the rest (a three-character
-    # shard costs ~2000 paths at ~1 s of solver time each; all sixteen did not fit any sane budget)
-    lim = B["L"] + (1 if (B["L3"] and kind in (0, 2) and pf in (0, 2) and iv == 1) else 0)
+    # thorough: three characters for URL sources (8 shards, each discharged in < 40 min of CPU), two for local sources
+    # (a three-character local-source shard explored 3500 paths in 4000 s without finishing)
+    lim = B["L"] + (1 if (B["L3"] and kind in (2, 3)) else 0)
     return len(p) <= lim and _rel_ok(p) and 0 <= kind <= 3 and 0 <= pf <= 3 and 0 <= iv <= 1
 
 
